@@ -478,6 +478,23 @@ void do_markup(std::ostream &out, toks &t)
         auto const r = to_string(s);
         out << "TS " << hex(reinterpret_cast<byte const *>(r.data()), r.size()) << "\n";
     }
+    else if (op == "ofstd")
+    {
+        auto const b = unhex(t.str());
+        terminalpp::string const s(std::string(b.begin(), b.end()));
+        pr_string(out, s);
+        auto const r = to_string(s);
+        out << "TS " << hex(reinterpret_cast<byte const *>(r.data()), r.size()) << "\n";
+    }
+    else if (op == "ofstdattr")
+    {
+        auto const b = unhex(t.str());
+        auto const a = mk_attr(t);
+        terminalpp::string const s(std::string(b.begin(), b.end()), a);
+        pr_string(out, s);
+        auto const r = to_string(s);
+        out << "TS " << hex(reinterpret_cast<byte const *>(r.data()), r.size()) << "\n";
+    }
     else if (op == "concat")
     {
         auto const a = mk_string(t);
